@@ -385,3 +385,7 @@ with count_async_f (f : fplan) : nat :=
                     (match res with Some v => count_async_v v | None => 0 end)
   end.
 Definition count_async (sel : selset) : nat := count_async_v (VObj sel).
+
+(** the key of every item of a result map, in item order ([None] = an item that was never set) *)
+Definition slot_keys (slots : list (option (bytes * gval))) : list (option bytes) :=
+  map (fun sl => match sl with Some (k, _) => Some k | None => None end) slots.
